@@ -19,19 +19,18 @@ RULE = ("kind sim: a parent screen (1-5 plates, most unobserved, arity 1-3, name
         "detected from the behaviour of the real functions on a probe.  Non-trivial: >= 1 operation and >= 2 parent "
         "rows; distinct by canonical description.")
 THEOREMS = {
-    "C03_split_keeps_mappings": "both halves of any hold-out split carry the parent's treatment and sample mapping verbatim",
-    "C03_ids_frozen": "repaired construction (mappings passed on): after any history on either half the mappings are the parent's and "
-                      "every row's sample id / treatment ids are the parent's ids of the same name / (name, dose)",
-    "C03_ids_frozen_per_op": "the same for any variant, for histories that only use operations whose call site passes the mappings "
-                             "(save/load always does)",
-    "C03_same_name_same_id": "repaired construction: two screens derived from one parent by any two histories give the same id to the "
-                             "same sample name and the same (treatment name, dose)",
+    "C03_split_keeps_mappings": "both halves of any hold-out split carry the parent's treatment and sample mapping verbatim and number their rows by them (true of today's code)",
+    "C03_parent_ids_are_its_mapping": "a constructed screen's own ids are its mapping's entries for its rows' names / (name, dose)",
+    "C03_ids_frozen": "REPAIRED construction (reveal/mask/unmask pass the mappings on): after any history on either half the mappings are the "
+                      "parent's and every row's sample id / treatment ids are the parent's ids of the same name / (name, dose)",
+    "C03_ids_frozen_per_op": "any variant: a history using only operations whose call site passes the mappings (save+load always does) keeps them",
+    "C03_same_name_same_id": "two screens frozen to one parent give the same id to the same sample name and the same (treatment name, dose), "
+                             "between any two stages of any two histories",
     "C03_sizes_never_shrink": "repaired construction: the experiment-space sizes of every derived screen equal the parent's",
-    "C03_ids_frozen_refuted": "today's construction (no mappings passed): there is a prepared simulation and a one-reveal history after "
-                              "which the sample ids [1 1 2 2] have become [0 0 1 1] and the mappings differ from the parent's",
-    "C03_mask_refuted": "the same for a single mask_screen",
-    "C03_unmask_refuted": "the same for a single unmask_screen",
-    "C03_sizes_shrink_refuted": "today's construction: the experiment-space sizes shrink after one reveal",
+    "C03_ids_frozen_refuted": "TODAY'S construction (no mappings passed): exists a prepared simulation whose training half has sample ids 1 1 2 2 and "
+                              "after one reveal_plates 0 0 1 1 for the same experiments; treatment ids likewise; mappings differ; sizes shrink (vm_compute witness)",
+    "C03_mask_refuted": "the same with a single mask_screen",
+    "C03_unmask_refuted": "the same with a single unmask_screen",
 }
 ASSUMPTIONS = [
     "the hold-out selection vector is an oracle input recorded from the real function's rng.choice calls (checked against the "
